@@ -12,3 +12,6 @@ func VerifSetMsgID(v int32) { atomic.StoreInt32(&msgID, v) }
 
 // VerifMsgID reads the process-wide request id counter.
 func VerifMsgID() int32 { return atomic.LoadInt32(&msgID) }
+
+// VerifGenRequestID draws one request id exactly as a call on this proxy does.
+func (s *ServantProxy) VerifGenRequestID() int32 { return s.genRequestID() }
